@@ -355,12 +355,41 @@ def num_obs(x):
 def _cnt_of(o):
     """the ClOrdID counter: the private attribute when it exists, else read off the current id's --<n> suffix
     (a refactoring may drop the attribute; the checks must keep judging public behaviour)"""
-    c = getattr(o, "_clord_id_cnt", None)
+    name = counter_attr()
+    c = getattr(o, name, None) if name else None
     if isinstance(c, int):
         return c
     import re as _re
     m = _re.search(r"--(\d+)\Z", str(getattr(o, "clord_id", "")))
-    return int(m.group(1)) if m else -1
+    return int(m.group(1)) if m else 0
+
+
+_COUNTER_ATTR = []
+
+
+def counter_attr():
+    """name of the attribute in which the order object keeps its ClOrdID counter, found by BEHAVIOUR (the int
+    attribute that clord_next() increments by one on a fresh order) - a rename of the private attribute must not
+    change what the checks see"""
+    if _COUNTER_ATTR:
+        return _COUNTER_ATTR[0]
+    name = None
+    try:
+        from asyncfix.protocol.order_single import FIXNewOrderSingle
+
+        probe = FIXNewOrderSingle("probe", "T", "1", 1.0, 1.0)
+        before = {k: v for k, v in vars(probe).items() if isinstance(v, int) and not isinstance(v, bool)}
+        probe.clord_next()
+        after = vars(probe)
+        names = [k for k, v in before.items() if after.get(k) == v + 1]
+        if len(names) == 1:
+            name = names[0]
+    except Exception:  # noqa: BLE001
+        name = None
+    if name is None and True:
+        name = "_clord_id_cnt"
+    _COUNTER_ATTR.append(name)
+    return name
 
 
 def order_obs(o) -> dict:
